@@ -6,6 +6,7 @@ CONSTANTS
   Types = {"i16", "f32", "u8"}
   RasDims <- RDimsNone
   ScaleSets <- ScalesAll
+  Grows = {}
   MaxObjs = 6
   MaxOps = 4
   Mix = FALSE
